@@ -9,6 +9,7 @@ import (
 
 	"github.com/gotd/td/telegram/updates"
 	"github.com/gotd/td/tg"
+	"github.com/gotd/td/tgerr"
 )
 
 // Env is one running updates.Manager wired to a World through fake API, storage and handler.
@@ -100,7 +101,10 @@ func (a api) UpdatesGetDifference(_ context.Context, r *tg.UpdatesGetDifferenceR
 func (a api) UpdatesGetChannelDifference(_ context.Context, r *tg.UpdatesGetChannelDifferenceRequest) (tg.UpdatesChannelDifferenceClass, error) {
 	c := r.Channel.(*tg.InputChannel).ChannelID
 	a.e.record(Event{Kind: "A", Key: "chdiff" + strconv.FormatInt(c, 10), Vals: []int{r.Pts}}, Snapshot{})
-	if d := a.e.W.channelDifference(c, r.Pts); d != nil {
+	switch d := a.e.W.channelDifference(c, r.Pts); {
+	case d == privateAnswer:
+		return nil, tgerr.New(400, "CHANNEL_PRIVATE")
+	case d != nil:
 		return d, nil
 	}
 	return nil, errTransient
@@ -166,7 +170,10 @@ func Start(w *World, snap Snapshot) *Env {
 				close(ch)
 			}
 		},
-		OnTooLong:        func() { e.record(Event{Kind: "L"}, Snapshot{}) },
+		OnTooLong: func() { e.record(Event{Kind: "L"}, Snapshot{}) },
+		OnChannelInaccessible: func(c int64) {
+			e.record(Event{Kind: "I", Key: "c" + strconv.FormatInt(c, 10)}, Snapshot{})
+		},
 		Storage:          e.Store,
 		AccessHasher:     hasher{w},
 		UserAccessHasher: userHasher{w},
@@ -235,14 +242,29 @@ func (e *Env) Affected(channelID int64, pts, count int) {
 	}
 }
 
-// waitExtrasServed waits until the extras pending for seq have gone out with an answer.
-func (e *Env) waitExtrasServed(seq string) {
+// servedCount: how many requests of the sequence have been answered (in any way) so far.
+func (e *Env) servedCount(seq string) int {
+	e.W.mu.Lock()
+	defer e.W.mu.Unlock()
+	n := 0
+	for _, sv := range e.W.Served {
+		if sv.Seq == seq {
+			n++
+		}
+	}
+	return n
+}
+
+// waitExtrasServed waits until the extras pending for seq have gone out with an answer, or the
+// request that was to carry them has been answered otherwise (a transient failure, too long, …:
+// `before` = servedCount when the request was triggered).
+func (e *Env) waitExtrasServed(seq string, before int) {
 	deadline := time.Now().Add(10 * time.Second)
 	for time.Now().Before(deadline) {
 		e.W.mu.Lock()
 		n := len(e.W.Extra[seq])
 		e.W.mu.Unlock()
-		if n == 0 {
+		if n == 0 || e.servedCount(seq) > before {
 			return
 		}
 		time.Sleep(20 * time.Microsecond)
@@ -272,7 +294,7 @@ func (e *Env) mainBarrier() bool {
 // chanBarrier returns once the channel worker has handled everything queued before: an
 // updateChannelTooLong far beyond the difference limit only calls OnChannelTooLong.
 func (e *Env) chanBarrier(c int64) bool {
-	if e.Dead[c] {
+	if e.Dead[c] || e.W.removed(c) {
 		return true
 	}
 	for attempt := 0; attempt < 3; attempt++ {
@@ -298,6 +320,9 @@ func (e *Env) chanBarrier(c int64) bool {
 				// implementation (its done channel is closed), not latency. The done channel was read
 				// at the last quiescent point; for a worker started since then the manager's channel
 				// table is consulted only after a long silence and with the main loop idle.
+				if e.W.removed(c) {
+					return true // the channel became inaccessible meanwhile: its worker has stopped, as it should
+				}
 				stopped := false
 				if d, ok := e.dones[c]; ok {
 					select {
@@ -310,6 +335,9 @@ func (e *Env) chanBarrier(c int64) bool {
 					if e.mainBarrier() {
 						stopped = updates.VerifC02ChannelStopped(e.M, c)
 					}
+				}
+				if stopped && e.W.removed(c) {
+					return true // the channel became inaccessible: its worker stopped, as it should
 				}
 				if stopped {
 					if e.Dead == nil {
@@ -342,6 +370,7 @@ func (e *Env) Settle() {
 		}
 		e.mainBarrier()
 		ext, internal, aff := updates.VerifC02QueueLens(e.M)
+		aff += updates.VerifC02RemovalsPending(e.M)
 		e.mainBarrier()
 		for _, c := range chans {
 			e.chanBarrier(c)
